@@ -19,7 +19,7 @@ from pymbolic import parse
 from pbt import strategies as S, walk
 from pbt.refsem import RefSkip, describe, exc_site, ref_eval, values_close
 from pbt.runner import Result
-from pbt.spec import build, subspecs
+from pbt.spec import twin_first, twin_how, build, subspecs
 
 PROP = "C06"
 LEVEL = "exploration"
@@ -143,6 +143,8 @@ def check_tree(spec):
         from pbt.spec import HarnessError
         raise HarnessError("outside the printable fragment")
     e = build(spec)
+    if twin_first(spec, twin_how(spec), lambda t: parse(str(t))):
+        res.label("twin-first")
     s = roundtrip(res, e)
     _classify(res, spec, e)
     res.sample = {"tree": repr(e)[:300], "printed": s}
